@@ -1,0 +1,89 @@
+//go:build verif
+// +build verif
+
+package badger
+
+import (
+	"time"
+
+	"github.com/dgraph-io/badger/v2"
+	"github.com/vipnode/vipnode/v2/pool/store"
+)
+
+// VerifSetNonceExpire overrides the nonce freshness window (verification hook).
+func (s *badgerStore) VerifSetNonceExpire(d time.Duration) {
+	s.nonceExpire = d
+}
+
+// VerifShiftTime moves every stored node and peer timestamp back by d, which
+// is observationally the same as letting d of wall-clock time pass
+// (verification hook).
+func (s *badgerStore) VerifShiftTime(d time.Duration) error {
+	return s.db.Update(func(txn *badger.Txn) error {
+		type kv struct {
+			key []byte
+			val interface{}
+		}
+		var writes []kv
+		{
+			var n store.Node
+			if err := loopItemKeys(txn, []byte("vip:node:"), &n, func(key []byte) error {
+				c := n
+				c.LastSeen = c.LastSeen.Add(-d)
+				writes = append(writes, kv{key, &c})
+				return nil
+			}); err != nil {
+				return err
+			}
+		}
+		{
+			var p map[store.NodeID]time.Time
+			if err := loopItemKeys(txn, []byte("vip:peers:"), &p, func(key []byte) error {
+				c := map[store.NodeID]time.Time{}
+				for id, t := range p {
+					c[id] = t.Add(-d)
+				}
+				writes = append(writes, kv{key, &c})
+				return nil
+			}); err != nil {
+				return err
+			}
+		}
+		for _, w := range writes {
+			if err := setItem(txn, w.key, w.val); err != nil {
+				return err
+			}
+		}
+		return nil
+	})
+}
+
+func loopItemKeys(txn *badger.Txn, prefix []byte, into interface{}, callback func(key []byte) error) error {
+	var keys [][]byte
+	it := txn.NewIterator(badger.DefaultIteratorOptions)
+	for it.Seek(prefix); it.ValidForPrefix(prefix); it.Next() {
+		keys = append(keys, it.Item().KeyCopy(nil))
+	}
+	it.Close()
+	for _, k := range keys {
+		// fresh decode target per key: gob does not clear maps/fields
+		switch v := into.(type) {
+		case *store.Node:
+			*v = store.Node{}
+		case *map[store.NodeID]time.Time:
+			*v = nil
+		}
+		if err := getItem(txn, k, into); err != nil {
+			return err
+		}
+		if err := callback(k); err != nil {
+			return err
+		}
+	}
+	return nil
+}
+
+// VerifDB exposes the underlying database handle (verification hook).
+func (s *badgerStore) VerifDB() *badger.DB {
+	return s.db
+}
